@@ -1,16 +1,20 @@
 (* C13, HLL part -- every image variant Java/C++ can emit is read back to the state it encodes.
    Statements only; proofs in Proofs/HllCodecProofs.v.  Spec/HllLayout.v holds the spec encoders
-   (written from the format description).
+   (written from the format description, independent of the model).
    PARTIAL: proved for the two LIST variants (compact: `count` coupons; updatable: all 1 << lgArr
-   slots, zeros empty) and for EVERY Hll8 array variant (any flags byte -- COMPACT, EMPTY,
-   OUT_OF_ORDER set or not --, any lgArr byte, any numAtCurMin / auxCount fields, trailing bytes).
-   For the other variants (set compact in any order / updatable table; Hll4 and Hll6 arrays) the
-   statement
+   slots, zeros empty) and for the Hll8 array variants of the SPEC encoder enc_hll_pre (COMPACT flag
+   set or not, OUT_OF_ORDER set or not, any lgArr byte, any curMin byte, any numAtCurMin / auxCount
+   fields, trailing bytes) whose estimator fields are finite and non-negative.
+   For the other variants (set compact in any order / updatable table; Hll4 and Hll6 arrays with
+   either flag) the statement
        hll_deserialize (spec_encode v a) = Ok s /\ abstraction of s = a
    is not proved; it is checked by the foreign-image oracle (Corr/Hll.v foreign_ok) on images built by
-   the generator's independent encoder.  NOT read back (known finding C13-hll-updatable-hll4-aux):
-   updatable Hll4 images whose exceptions are stored as a hash table. *)
-From DS Require Import Base.Prelude Model.Hll Model.HllCodec Spec.HllLayout Proofs.HllBase Proofs.HllSet Proofs.HllCodecProofs.
+   the generator's independent encoder: the decoded sketch is dumped, its estimate and bounds are
+   compared with the model's, it is re-serialized, updated further and merged into a union, all in
+   lock step with the model.  NOT read back (known finding C13-hll-updatable-hll4-aux): updatable Hll4
+   images whose exceptions are stored as a hash table. *)
+From DS Require Import Base.Prelude Base.FloatBits Model.Hll Model.HllUnion Model.HllCodec Spec.HllLayout Proofs.HllBase Proofs.HllSet Proofs.HllCodecProofs.
+From Coq Require Import Floats.
 Open Scope N_scope.
 
 Theorem c13_hll_list_variants_partial :
@@ -23,19 +27,22 @@ Theorem c13_hll_list_is_wellformed :
   forall cs, NoDup cs -> Forall valid cs -> (length cs < 8)%nat -> ListInv (list_of_coupons cs) cs.
 Proof. exact list_of_coupons_inv. Qed.
 
-(* every Hll8 array image is read back: the registers are the k bytes of the register block whatever
-   the COMPACT flag says (repaired defect D4), num_zeros is recomputed, the out-of-order flag is the
-   flag bit, the estimator fields are the three 8-byte patterns *)
+(* every Hll8 array image of the spec encoder is read back: the registers are the k bytes of the
+   register block whatever the COMPACT flag says (repaired defect D4), num_zeros is recomputed, the
+   out-of-order flag is the flag bit, kxq0 / kxq1 are the encoded binary64 values and the HIP
+   accumulator is the encoded one unless the image is out of order (then 0) *)
 Theorem c13_hll_hll8_variants_partial :
-  forall lgk lg_arr flags cm hipb q0b q1b num auxc regs tail,
-  4 <= lgk <= 21 -> length hipb = 8%nat -> length q0b = 8%nat -> length q1b = 8%nat ->
+  forall compact ooo lgk lg_arr cm hipv q0 q1 num auxc regs tail,
+  4 <= lgk <= 21 -> hipv < 2 ^ 64 -> q0 < 2 ^ 64 -> q1 < 2 ^ 64 ->
   length regs = N.to_nat (2 ^ lgk) -> (forall v, In v regs -> v <= 63) ->
-  exists a, hll_deserialize ([HLL_PREINTS; SER_VER; FAMILY_HLL; lgk; lg_arr; flags; cm; mode_byte MODE_HLL T8]
-                             ++ hipb ++ q0b ++ q1b ++ le_bytes 4 num ++ le_bytes 4 auxc ++ regs ++ tail)
+  image_field_ok (float_of_bits (Nz hipv)) = true -> image_field_ok (float_of_bits (Nz q0)) = true ->
+  image_field_ok (float_of_bits (Nz q1)) = true ->
+  exists a, hll_deserialize (enc_hll_pre compact ooo lgk 2 lg_arr cm hipv q0 q1 num auxc ++ regs ++ tail)
             = Ok (mkSketch lgk (MArr8 a)) /\
     a8_lgk a = lgk /\ (forall j, a8_get a j = if j <? 2 ^ lgk then nth (N.to_nat j) regs 0 else 0) /\
     a8_nz a = N.of_nat (length (filter (fun v => v =? 0) regs)) /\
-    a8_est a = est_of_image hipb q0b q1b (negb (N.land flags OOO_FLAG =? 0)).
+    h_ooo (a8_est a) = ooo /\ h_kxq0 (a8_est a) = float_of_bits (Nz q0) /\ h_kxq1 (a8_est a) = float_of_bits (Nz q1) /\
+    h_accum (a8_est a) = if ooo then 0%float else float_of_bits (Nz hipv).
 Proof. exact hll8_variants_read_back. Qed.
 
 (* array images carrying the COMPACT flag (what toCompactByteArray emits; defect D4) and images
